@@ -206,3 +206,43 @@ def sequence_refines_spec(cls, nids, steps):
             # the spec cell holds immutable snapshots; re-snapshot the implementation's buffer for the next step
             if cur[0] is not None:
                 cells[k] = (H.snapshot(cur[0]), cells[k][1], cells[k][2])
+
+
+# ------------------------------------------------------------------------------------------------ candump text logs
+# read_telegrams() on a text file: every line of the three candump formats is handed to decode_rx_frame as the frame
+# (CAN id, data bytes) the line denotes, in file order; nothing else is.  With the per-frame contract above this gives
+# "reading the same frames from a log gives the same telegrams".  The regular expressions run natively on concrete
+# lines (A-lib: re), the surrounding code is interpreted.
+import io  # noqa: E402
+
+LOG_LINES = {
+    "candump-classic": ("  vcan0  7E0   [8]  02 10 01 00 00 00 00 00", 0x7E0, "0210010000000000"),
+    "candump-classic-short": ("vcan0 123 [3] 02 3e 80", 0x123, "023e80"),
+    "candump-classic-29bit": ("can1  18DA10F1   [8]  10 0A 22 F1 90 00 00 00", 0x18DA10F1, "100a22f190000000"),
+    "log": ("(1700000000.123456) vcan0 7E8#0650014142434445", 0x7E8, "0650014142434445"),
+    "log-lowercase": ("(0.5) can0 7e8#21aabbccddeeff00", 0x7E8, "21aabbccddeeff00"),
+    "log-fd": ("(1700000000.5) vcan0 7E0##100100a22f190aabbccddeeff0011", 0x7E0, "00100a22f190aabbccddeeff0011"),
+}
+
+
+@harness(props=["C12"], strength="E",
+         family=lambda t, s: [{"first": a, "second": b} for a in LOG_LINES for b in ("log", "candump-classic")],
+         functions=[IsoTpStateMachine.read_telegrams], covers=["read"], assumes=["A-lib"], crosscheck=False)
+def log_lines_denote_their_frames(first, second):
+    """read_telegrams(text file) passes exactly the frames the lines denote to decode_rx_frame, in order, and yields
+    what decode_rx_frame reports"""
+    sm = IsoTpStateMachine([0x7E0, 0x7E8])
+    seen = []
+
+    def recorder(rx_id, data):
+        seen.append((rx_id, bytes(data)))
+        return [(rx_id, bytes(data))]
+
+    sm.decode_rx_frame = recorder
+    text = LOG_LINES[first][0] + "\n" + LOG_LINES[second][0] + "\n"
+    out = []
+    H.consume(lambda: sm.read_telegrams(io.StringIO(text)), lambda item: out.append(item))
+    want = [(LOG_LINES[k][1], bytes.fromhex(LOG_LINES[k][2])) for k in (first, second)]
+    H.cover("read")
+    H.check("C12:every-log-line-is-decoded-as-the-frame-it-denotes-in-file-order", seen == want)
+    H.check("C12:what-the-frame-decoder-reports-is-yielded", out == want)
